@@ -116,6 +116,11 @@ func condBase() []cond {
 		{e: eCmp("==", at(sKey("a"), sFilter(eCmp(">", eCur(), eInt(0)))), at(sKey("a")))},
 		{e: eExists(at(sAnyArray(), sFilter(eCmp(">", eCur(), eStr("x")))))},
 		{e: eExists(at(sAnyKey(), sFilter(eExists(eCur(sKey("a"))))))},
+		// operands that deliver an item and fail on a later one (lax exists stops at the first item)
+		{e: eExists(at(sKey("a"), sMethod("double")))},
+		{e: eExists(at(sAnyArray(), sMethod("double")))},
+		{e: eExists(eArith("+", at(sKey("a"), sAnyArray()), eInt(1)))},
+		{e: eCmp("<", at(sKey("a"), sAnyArray(), sMethod("double")), at(sKey("b")))},
 		// hard errors
 		{e: eCmp("==", at(), eVar("missing")), hard: true},
 		{e: eExists(at(sKey("a"), sFilter(eCmp("==", eCur(), eVar("missing"))))), hard: true},
@@ -135,7 +140,7 @@ func condPool(pairN int) []cond {
 	}
 	var pairSet []cond
 	for i, c := range base {
-		if i < pairN || i >= 21 {
+		if i < pairN || i >= 21 { // the nested-filter, yield-then-fail and hard-error conditions always take part
 			pairSet = append(pairSet, c)
 		}
 	}
